@@ -336,11 +336,14 @@ pub fn check(rec: &mut Recorder, c: &S2Case) -> Result<(), String> {
     for (k, inst) in o.installed.iter().enumerate() {
         let needs_jit = c.variant != Variant::Arm;
         if *inst {
-            if needs_jit {
-                expected_live += 1;
+            // an installation keeps at most one mapping (none if it needs no trampoline)
+            let before = if k == 0 { 0 } else { o.live_after_install[k - 1].len() };
+            let now = o.live_after_install[k].len();
+            if needs_jit && now <= before + 1 && now >= before {
+                expected_live = now;
             }
-            if o.live_after_install[k].len() != expected_live {
-                return rec.fail(&sig("rejected-placement-left-mapped"), format!("after successful installation #{k} {} mappings are outstanding, expected {expected_live}: {:x?}; case {c:?}", o.live_after_install[k].len(), o.live_after_install[k]));
+            if now != expected_live {
+                return rec.fail(&sig("rejected-placement-left-mapped"), format!("after successful installation #{k} {now} mappings are outstanding ({before} before it; one installation keeps at most one): {:x?}; case {c:?}", o.live_after_install[k]));
             }
         } else {
             // refused: target untouched by this attempt, nothing new left mapped
@@ -373,6 +376,8 @@ pub fn check(rec: &mut Recorder, c: &S2Case) -> Result<(), String> {
                 let out = a64_run(&m, entry, 1);
                 match out.hops.first() {
                     Some(h) if live.iter().any(|(a, l)| *h >= *a && *h < *a + (*l as u64).max(1)) => Ok(()),
+                    // (no trampoline kept: the entry may lead straight to the fake)
+                    Some(h) if live.len() == (if k == 0 { 0 } else { o.live_after_install[k - 1].len() }) && *h == (c.fake.wrapping_add(16 * k as u64) | (c.fake & 1)) => Ok(()),
                     other => Err(format!("entry decodes to {other:?} (trace {:?}) which is not inside a mapping the injector kept ({live:x?})", out.trace)),
                 }
             }
@@ -380,6 +385,7 @@ pub fn check(rec: &mut Recorder, c: &S2Case) -> Result<(), String> {
                 let out = x86_follow(&m, entry, &[], 1);
                 match out.hops.first() {
                     Some(h) if live.iter().any(|(a, l)| *h >= *a && *h < *a + (*l as u64).max(1)) => Ok(()),
+                    Some(h) if live.len() == (if k == 0 { 0 } else { o.live_after_install[k - 1].len() }) && *h == (c.fake.wrapping_add(16 * k as u64) | (c.fake & 1)) => Ok(()),
                     other => Err(format!("entry decodes to {other:?} (trace {:?}) which is not inside a mapping the injector kept ({live:x?})", out.trace)),
                 }
             }
